@@ -48,6 +48,11 @@ def r1_gate_chain(ctx):
             after = f.reach_from(bi)
             alive = [o for o in oks if o in after]
             r.check(not alive, key, okmsg, badmsg, b.where(bi))
+        # and no path to Ok goes around the gate (an early `return Ok(..)` for a special case before it is evaluated)
+        wo = b.reachable(0, removed=[bi for bi, e in sites])
+        around = [o for o in oks if o in wo]
+        r.check(not around, key + "/every-path", "every path to Ok evaluates it", "Ok(speed) is reachable without this gate being evaluated at all (bb%s): a special case returns before it" % around,
+                b.where(around[0]) if around else None)
     calls = q.all_call_exprs(b)
     # (a) coin lookup
     gate("coin-missing", [(bi, e) for bi, e in calls if q.is_call(e, "HashMap::get") and A(e) == "HashMap::get($2, COINID)"], V(0), "unknown coin ⇒ no Ok", "with the coin unknown Ok is reachable")
@@ -55,7 +60,8 @@ def r1_gate_chain(ctx):
     want_age = "Lt(<melstructs::BlockHeight as std::ops::Sub>::sub($1.height, COIN.height).0, 100)"
     NETS = ("Eq($1.network, NetID::Mainnet{})", "Eq(NetID::Mainnet{}, $1.network)")
     # either polarity of the source test: `age < 100 && net == Mainnet` and `!(age >= 100 || net != Mainnet)` are the same two atoms
-    age = [(e, c, bi) for e, c, bi in q.pick_atoms(b, lambda c: abbrev(c, al) == want_age) if "BlockHeight as std::ops::Sub" in c]
+    # (the zero test of a division by the age — `2^d / (h − h_coin)` spliced in from a speed helper the rules do not know by name — is not an age rule)
+    age = [(e, c, bi) for e, c, bi in q.pick_atoms(b, lambda c: abbrev(c, al) == want_age) if "BlockHeight as std::ops::Sub" in c and not (c.startswith(("Eq(", "Ne(")) and c.endswith(", 0)"))]
     net = [(e, c, bi) for e, c, bi in q.pick_atoms(b, lambda c: c in NETS) if c in NETS]
     r.check([abbrev(c, al) for e, c, bi in age] == [want_age], "age/atom", "age test: height − coin.height < 100", "age atoms: %s" % [abbrev(c, al) for e, c, bi in age])
     r.check(len(net) == 1, "age/mainnet", "restricted to mainnet", "network atoms: %d" % len(net))
@@ -209,21 +215,35 @@ def r3_speed_commitment(ctx):
             cb = prog.body(idc[1]) if idc[0] == "closure" else None
             rr = q.ret_assignments(cb) if cb else []
             s = sig(rr[0][2]) if rr else sig(idc)
-            r.check(s == "^this.dosc_speed", "identity/%d" % i, "identity = this.dosc_speed", "identity = %s (a speed below the previous one becomes possible)" % s, where)
+            res = q.closure_rets_resolved(prog, idc) if idc[0] in ("closure", "fn") else None
+            s2 = sig(res[0]) if res and len(res) == 1 else ""
+            r.check(s == "^this.dosc_speed" or s2 == "$1.dosc_speed", "identity/%d" % i, "identity = this.dosc_speed", "identity = %s (a speed below the previous one becomes possible)" % s, where)
         for i, opc in enumerate(ops):
-            cb = prog.body(opc[1]) if opc[0] == "closure" else None
+            if opc[0] == "closure":
+                cb = prog.body(opc[1])
+            elif opc[0] == "fn":
+                cands = prog.by_nname.get(opc[1]) or []
+                cb = cands[0] if len(cands) == 1 else None
+            else:
+                cb = None
             r.anchor(cb, "reducer closure %d" % i)
             ctx.analysed(cb)
+            acc = "$2" if opc[0] == "closure" else "$1"       # a closure's first parameter is its environment
             oks = q.result_blocks(cb)["Ok"]
             ok = bool(oks)
+            caps = q.closure_caps(opc) if opc[0] == "closure" else {}
             for bb, e in oks:
                 pay = dict(e[3])["0"]
-                if not (q.is_call(pay, "Ord::max", "cmp::max") and sig(pay[2][0]) == "$2"):
+                args = [sig(a) for a in pay[2]] if q.is_call(pay, "Ord::max", "cmp::max") and len(pay[2]) == 2 else []
+                if acc not in args:
                     ok = False
                     r.violation("reducer/%d" % i, "reducer returns Ok(%s), not Ok(max(accumulator, ·))" % sig(pay)[:120], "%s:%s" % (cb.file, cb.line))
                 elif i == 1:
-                    other = sig(pay[2][1])
-                    r.check(other == "try(applytx::validate_and_get_doscmint_speed(^this, ^relevant_coins, $3))", "fold/term", "term = validated speed of the tx", "term = %s" % other, "%s:%s" % (cb.file, cb.line))
+                    o_ = [a for a in pay[2] if sig(a) != acc] or [pay[2][1]]
+                    other = sig(o_[0])
+                    other2 = sig(q.subst_simplify(q.novers(o_[0]), {}, caps))
+                    want = ("try(applytx::validate_and_get_doscmint_speed(^this, ^relevant_coins, $3))", "try(applytx::validate_and_get_doscmint_speed($1, try(applytx::load_relevant_coins($1, $2)), $3))")
+                    r.check(other in want or other2 in want, "fold/term", "term = validated speed of the tx", "term = %s" % other, "%s:%s" % (cb.file, cb.line))
             if ok:
                 r.ok("reducer/%d" % i, "reducer is max", "%s:%s" % (cb.file, cb.line))
         # R4 coverage
@@ -231,9 +251,9 @@ def r3_speed_commitment(ctx):
         if q.is_call(src, "ParallelIterator::filter", "Iterator::filter"):
             base, fc = src[2][0], src[2][1]
             r4.check(sig(base) in ("<I as rayon::iter::IntoParallelRefIterator<'data>>::par_iter($2)", "$2"), "source", "over the whole batch", "over %s" % sig(base), where)
-            cb = prog.body(fc[1]) if fc[0] == "closure" else None
+            cb, first = q.callable_body(prog, fc)
             r4.anchor(cb, "filter closure")
-            q.check_conjunction(r4, "filter", cb, ["Eq($2.kind, TxKind::DoscMint{})"])
+            q.check_conjunction(r4, "filter", cb, [q.shift_params("Eq($2.kind, TxKind::DoscMint{})", first)])
         else:
             r4.violation("source", "the speed fold is over %s, not over the DoscMint members of the batch" % sig(src)[:150], where)
 
@@ -256,10 +276,70 @@ def r5_speed_formula(ctx):
         r.check(nf == want, "formula/tip910=%d" % fl, "speed = %d·2^d/(h−h_coin)" % mult, "speed = %s" % sig(nf)[:200])
 
 
+def r6_reward_rounds_down(ctx):
+    r = ctx.rule("R6", "the reward cap never exceeds the formula: dosc_to_erg(height, real) = ⌊dosc_inflator(height) · real⌋ with dosc_inflator(height) = microergs_per_dosc(height) / 10^6 "
+                       "(rounded down, inflator of the height passed in), and calculate_reward divides with BigInt's truncating `/`", positional=False)
+    prog = ctx.prog
+    b = ctx.body("melstf::state::melmint::dosc_to_erg", r)
+    rets = q.ret_assignments(b)
+    r.anchor(rets, "return of dosc_to_erg")
+    names = set()
+    for bb in [b] + prog.closures_of(b):
+        for bi, t in bb.calls():
+            if t["fn"]:
+                names.add(mir.norm_name(t["fn"]["path"]).split("::")[-1])
+    up = sorted(names & {"round", "ceil", "div_ceil", "next_multiple_of"})
+    down = sorted(names & {"floor", "trunc", "to_integer", "div_floor"})
+    where = b.where(rets[0][0])
+    if up:
+        r.violation("dosc_to_erg/rounding", "dosc_to_erg rounds with %s: the cap on the minted ERG lies up to 1 µERG above reward·inflator, so more ERG than the formula reward is accepted" % "/".join(up), where)
+    elif down:
+        r.ok("dosc_to_erg/rounding", "rounded down (%s)" % "/".join(down), where)
+    else:
+        r.undecided("dosc_to_erg/rounding", "no rounding operation recognised in dosc_to_erg (calls: %s)" % sorted(names)[:12], where)
+    e = rets[0][2]
+    infl = [x for x in mir.walk(e) if q.is_call(x, "melmint::dosc_inflator")]
+    if infl:
+        a = sig(q.novers(infl[0][2][0]))
+        r.check(a == "$1", "dosc_to_erg/inflator-height", "inflator of the height passed in", "the inflator is taken at %s, not at the height passed in" % a[:80], where)
+        muls = [x for x in mir.walk(e) if isinstance(x, tuple) and x[0] == "call" and x[1].endswith("::mul") and any(q.is_call(y, "melmint::dosc_inflator") for y in x[2])]
+        def bare(y):
+            while isinstance(y, tuple) and y[0] == "call" and len(y[2]) == 1 and y[1].split("::")[-1] in ("from_integer", "from", "into", "clone"):
+                y = y[2][0]
+            return sig(q.novers(y))
+        other = [bare(y) for x in muls for y in x[2] if not q.is_call(y, "melmint::dosc_inflator")]
+        if other == ["$2"]:
+            r.ok("dosc_to_erg/product", "inflator · real", where)
+        elif len(other) == 1 and not q.has_unknown(muls[0]) and ("$" in other[0] or other[0].isdigit()):
+            r.violation("dosc_to_erg/product", "the inflator multiplies %s, not the real reward passed in" % other, where)
+        else:
+            r.undecided("dosc_to_erg/product", "product with the inflator not recognised: %s" % other, where)
+    else:
+        r.undecided("dosc_to_erg/inflator-height", "dosc_inflator call not found in the result expression %s" % sig(e)[:120], where)
+    di = ctx.body("melstf::state::melmint::dosc_inflator", r)
+    dr = q.ret_assignments(di)
+    ds = sig(q.novers(dr[0][2])) if len(dr) == 1 else ""
+    forms = ("tuple(melmint::microergs_per_dosc($1), MICRO_CONVERTER)", "Ratio::new(melmint::microergs_per_dosc($1), MICRO_CONVERTER)", "Ratio::new_raw(melmint::microergs_per_dosc($1), MICRO_CONVERTER)")
+    if ds in forms:
+        r.ok("inflator/ratio", "dosc_inflator(h) = microergs_per_dosc(h) / MICRO_CONVERTER", di.where(dr[0][0]))
+    elif ds.startswith(("tuple(", "Ratio::new(", "Ratio::new_raw(")) and "microergs_per_dosc" in ds and not (dr and q.has_unknown(dr[0][2])):
+        r.violation("inflator/ratio", "dosc_inflator returns %s, not microergs_per_dosc(height) / MICRO_CONVERTER" % ds[:160], di.where(dr[0][0]))
+    else:
+        r.undecided("inflator/ratio", "dosc_inflator returns %s: not recognised" % ds[:160], di.where(dr[0][0]) if dr else None)
+    cr = ctx.body("melstf::state::melmint::calculate_reward", r)
+    cs = [sig(x[2]) for x in q.ret_assignments(cr)]
+    if len(cs) == 1 and "impl std::ops::Div for num::BigInt>::div(" in cs[0] and not any(k in cs[0] for k in ("round", "ceil")):
+        r.ok("calculate_reward/rounding", "BigInt `/` (truncating, operands non-negative)")
+    elif cs and any(k in cs[0] for k in ("div_ceil", "::ceil(", "::round(")):
+        r.violation("calculate_reward/rounding", "calculate_reward rounds up: %s" % cs[0][:160])
+    else:
+        r.undecided("calculate_reward/rounding", "division in calculate_reward not recognised: %s" % (cs[0][:160] if cs else "no return"))
+
+
 def shared(ctx):
     from rules.engine import core
     from rules.props import c01
     core.import_rules(ctx, [c01.r2_exemption_table], "X01")
 
 
-RULES = [r1_gate_chain, r2_reward_bound, r3_speed_commitment, r5_speed_formula, shared]
+RULES = [r1_gate_chain, r2_reward_bound, r3_speed_commitment, r5_speed_formula, r6_reward_rounds_down, shared]
